@@ -27,7 +27,7 @@ Inductive ty :=
 | TParam (n : string).                                 (* a type parameter of the enclosing declaration *)
 
 (* types.TypeString(t, g.qualifier): package NAME for foreign packages, nothing
-   for the package under generation; type arguments separated by "," *)
+   for the package under generation; type arguments separated by ", " (go1.24) *)
 Fixpoint type_string (t : ty) : string :=
   match t with
   | TBasic n => n
@@ -38,7 +38,7 @@ Fixpoint type_string (t : ty) : string :=
       (if String.eqb pkg "" then n else pkg ++ "." ++ n) ++
       match args with
       | [] => ""
-      | _ => "[" ++ String.concat "," (map type_string args) ++ "]"
+      | _ => "[" ++ String.concat ", " (map type_string args) ++ "]"
       end
   | TParam n => n
   end.
@@ -140,7 +140,7 @@ Definition struct_fields (si : sinst) : list tfield :=
   let s := combine (tparam_names sd) args in
   flat_map (fun fd =>
     match fd_names fd with
-    | [] => [(short_name (fd_ty fd), subst s (fd_ty fd), true)]
+    | [] => [(short_name (subst s (fd_ty fd)), subst s (fd_ty fd), true)]
     | ns => map (fun n => (n, subst s (fd_ty fd), false)) ns
     end) (sd_fields sd).
 
